@@ -190,9 +190,18 @@ func (i *Interp) ensureInit(pkg *ssa.Package) {
 	}
 	i.inited[pkg] = 1
 	pkg.Build()
-	// packages imported only for their side effects are initialised first
+	// like the Go runtime, initialise the imported packages first - but only the
+	// ones outside the standard library (registrations between third-party and
+	// module packages matter; std packages are initialised on first use)
 	for _, b := range i.P.BlankImports[pkg] {
 		i.ensureInit(b)
+	}
+	for _, imp := range pkg.Pkg.Imports() {
+		if first := strings.SplitN(imp.Path(), "/", 2)[0]; strings.Contains(first, ".") && !strings.Contains(imp.Path(), "/zzverif/") {
+			if sp := i.P.Prog.Package(imp); sp != nil {
+				i.ensureInit(sp)
+			}
+		}
 	}
 	if !i.inModule(pkg) {
 		// remember model state (sync.Once etc.) created while a persistent package initialises
@@ -293,6 +302,9 @@ const (
 )
 
 func (i *Interp) step() {
+	if i.initDepth > 0 {
+		return // package initialisation is not charged to the path's budget
+	}
 	i.steps++
 	if i.steps > i.cfg.StepBudget {
 		i.abort(stUnwound, fmt.Sprintf("instruction budget %d exhausted", i.cfg.StepBudget))
@@ -920,6 +932,11 @@ func (i *Interp) callSSA(caller *frame, fn *ssa.Function, args []value, env []va
 		return intr(i, caller, fn, args)
 	}
 	if fn.Pkg != nil {
+		if fn.Pkg.Pkg.Path() == "runtime" && fn.Name() == "Error" {
+			i.inited[fn.Pkg] = 2 // error values of the runtime: no package state needed
+		} else if fn.Pkg.Pkg.Path() == "runtime" {
+			i.abort(stInconclusive, "runtime function not modelled: "+fn.String()+" called from "+callerName(caller))
+		}
 		if i.inited[fn.Pkg] == 0 && fn.Name() != "init" {
 			i.ensureInit(fn.Pkg)
 		}
@@ -1431,3 +1448,12 @@ func (i *Interp) FuncsSeen() []string {
 }
 
 var _ = token.NoPos
+
+func callerName(fr *frame) string {
+	out := ""
+	for k := 0; fr != nil && k < 6; k++ {
+		out += " <- " + fr.fn.String()
+		fr = fr.caller
+	}
+	return out
+}
